@@ -42,7 +42,7 @@ theorem C02_stream_ends_with_finish_partial (nS nM : Nat) (es : List MEv) (e : E
     have a : ¬ (mds_FINISH = mds_SEGNO) := by decide
     simp [a]
   rw [h3] at h
-  have h4 : mds_FINISH < mds_REST ∨ mds_FINISH ≥ mds_SLR ∨ (⟨mds_FINISH, 0⟩ : MEv).arg ≠ 0 := by decide
+  have h4 : (mds_FINISH < mds_REST ∧ mds_FINISH ≠ mds_CARRY) ∨ mds_FINISH ≥ mds_SLR ∨ (⟨mds_FINISH, 0⟩ : MEv).arg ≠ 0 := by decide
   simp only [h4, if_true, Except.ok.injEq] at h
   subst h
   rfl
